@@ -51,6 +51,37 @@ def rxLine (f : Framing) (inputs : List String) : String :=
   | [] => "rx 0"
   | m0 :: _ => s!"rx {msgs.length} | {m0} | " ++ " | ".intercalate msgs
 
+/-- Receive paths with a request monitor that drops code 0.04: every other frame / datagram is delivered as the
+decode of its own bytes into a fresh message. -/
+def rxmLine (f : Framing) (inputs : List String) : String :=
+  let msgs := inputs.filterMap fun h =>
+    match Driver.parseHex? h with
+    | some bs =>
+      match unmarshalWithDecoderN (coderOf f) newMessage bs with
+      | .ok (_, st) => if st.msg.code = 4 then none else some (fmtMsg (canonTcp f st.msg))
+      | .error _ => none
+    | none => none
+  match msgs with
+  | [] => "rxm 0"
+  | _ => s!"rxm {msgs.length} | " ++ " | ".intercalate msgs
+
+/-- Judge: the delivered messages are the reference parses of the frames the monitor does not drop. -/
+def rxmJudge (f : Framing) (inputs : List String) (out : List String) : String :=
+  let expected := inputs.filterMap fun h =>
+    match Driver.parseHex? h with
+    | some bs =>
+      match refParse f bs with
+      | some (m, _) => if m.code = 4 then none else some m
+      | none => none
+    | none => none
+  match splitBar out with
+  | ("rxm" :: _) :: obs =>
+    let observed := obs.map fun o => (parseMsg? o).map (·.1)
+    if observed.length ≠ expected.length then "violates reused-message-as-fresh"
+    else if (observed.zip expected).all (fun (o, w) => o == some w) then "ok"
+    else "violates reused-message-as-fresh"
+  | _ => "bad-op"
+
 /-- Judge of the receive paths: each delivered message must equal the reference parse of the bytes it was sent as. -/
 def rxJudge (f : Framing) (inputs : List String) (out : List String) : String :=
   let expected := inputs.filterMap fun h =>
@@ -88,7 +119,12 @@ def modelLine (fields : List String) : String :=
       match unmarshalWithDecoderN (coderOf f) dst bs with
       | .error .optCap => "hang"      -- only reachable when the retry loop makes no progress (see `decodeRetryN`)
       | .error e => s!"pdec -1 {e.toString} -"
-      | .ok (n, st) => s!"pdec {n} ok {fmtMsg (canonTcp f st.msg)} alias=ok"
+      | .ok (n, st) =>
+        let head := s!"pdec {n} ok {fmtMsg (canonTcp f st.msg)} alias=ok"
+        -- re-encode from the same pooled message: the model's buffers are values, nothing can change under it
+        match marshalWithEncoder (coderOf f) st with
+        | .ok (wire, _) => head ++ s!" | remar ok {Driver.toHex wire} same=ok"
+        | .error e => head ++ s!" | remar {e.toString} - same=-"
     | _, _, _ => "bad-op"
   | "rxtcp" :: _split :: na :: nb :: frames =>
     match na.toNat?, nb.toNat? with
@@ -97,6 +133,10 @@ def modelLine (fields : List String) : String :=
   | "rxudp" :: n :: dgrams =>
     match n.toNat? with
     | some n => if dgrams.length = n then rxLine .udp dgrams else "bad-op"
+    | none => "bad-op"
+  | "rxmon" :: via :: _split :: n :: frames =>
+    match n.toNat? with
+    | some n => if frames.length = n then rxmLine (if via = "udp" then .udp else .tcp) frames else "bad-op"
     | none => "bad-op"
   | _ => "bad-op"
 
@@ -140,21 +180,40 @@ def judgeLine (inp out : List String) : String :=
         | _, _, _, _ => "bad-op"
       | _ => (judgeHeader bs err 0 0 0 []).toString
     | none => "bad-op"
-  | ["pdec", c, _kind, cap, hex], "pdec" :: rest =>
+  | ["pdec", c, _kind, cap, hex], "pdec" :: _ =>
     match parseCoder? c, cap.toNat?, Driver.parseHex? hex with
     | some f, some cap, some bs =>
-      let (alias, body) := match rest.reverse with
-        | a :: r => if a.startsWith "alias=" then (a, r.reverse) else ("alias=ok", rest)
-        | [] => ("alias=ok", rest)
-      match parseDecObs? body with
-      | none => "bad-op"
-      | some d =>
-        let v1 := judgeDecode f true cap bs d
-        let v2 : Verdict := if alias = "alias=ok" then .ok else .violates "no-aliasing"
-        (worst [v1, v2]).toString
+      match splitBar out with
+      | ("pdec" :: rest) :: more =>
+        let (alias, body) := match rest.reverse with
+          | a :: r => if a.startsWith "alias=" then (a, r.reverse) else ("alias=ok", rest)
+          | [] => ("alias=ok", rest)
+        match parseDecObs? body with
+        | none => "bad-op"
+        | some d =>
+          let v1 := judgeDecode f true cap bs d
+          let v2 : Verdict := if alias = "alias=ok" then .ok else .violates "no-aliasing"
+          -- re-encoding from the same pooled message
+          let v3 : Verdict :=
+            match d.msg, more with
+            | some m, [["remar", e, b, same]] =>
+              if e ≠ "ok" then .violates "accepted-reencodes"
+              else if same ≠ "same=ok" then .violates "stable-under-reencoding"
+              else
+                match Driver.parseHex? b with
+                | some wire =>
+                  match refParse f wire with
+                  | some (m', k) => if m' = m ∧ k = wire.length then .ok else .violates "decode-canonical"
+                  | none => .violates "decode-canonical"
+                | none => .violates "decode-canonical"
+            | some _, _ => .violates "accepted-reencodes"
+            | none, _ => .ok
+          (worst [v1, v2, v3]).toString
+      | _ => "bad-op"
     | _, _, _ => "bad-op"
   | "rxtcp" :: _split :: _na :: _nb :: frames, _ => rxJudge .tcp frames out
   | "rxudp" :: _n :: dgrams, _ => rxJudge .udp dgrams out
+  | "rxmon" :: via :: _split :: _n :: frames, _ => rxmJudge (if via = "udp" then .udp else .tcp) frames out
   | _, _ => "bad-op"
 
 def splitArrow (fields : List String) : List String × List String :=
